@@ -59,6 +59,17 @@ def expect(run, text, want, data=None):
     return True
 
 
+def expect_err(run, text, want_log, kind):
+    log, r = ec.run_real(text, None)
+    run.case(("tt_err", text), nontrivial=True)
+    run.count("truth_table_error_row")
+    if r != ("err", kind) or log != want_log:
+        run.fail("violation", "a lazy form did not propagate the error of the operand it selected (or evaluated further operands)",
+                 {"program": text, "observed_log": log, "required_log": want_log, "observed": repr(r), "required": "error " + kind})
+        return False
+    return True
+
+
 def truth_tables(run):
     T, F = "true", "false"
     for a, b in itertools.product([T, F, "0", "1", "''", "'x'", "[]", "[0]", "null"], repeat=2):
@@ -94,6 +105,19 @@ def truth_tables(run):
             if v == "1":
                 break
         expect(run, "coalesce(%s)" % ", ".join("tick(%d, %s)" % (i + 1, v) for i, v in enumerate(vals)), want)
+    # a raising selected operand propagates its error; nothing else is evaluated (probe 1 never logs: its
+    # argument raises before the probe body runs)
+    for bad, kind in (("[1][5]", "KIndex"), ("{a => 1}[b]", "KKey"), ("[].first()", "KStop"), ("1 / 0", "KZero")):
+        expect_err(run, "tick(9, 0).switchCase(tick(1, %s), tick(2, 20))" % bad, [9], kind)
+        expect_err(run, "tick(9, 1).switchCase(tick(1, 10), tick(2, %s))" % bad, [9], kind)
+        expect_err(run, "tick(9, 7).switchCase(tick(1, 10), tick(2, %s))" % bad, [9], kind)
+        expect_err(run, "switch(tick(1, true) => tick(2, %s), tick(3, true) => tick(4, 1))" % bad, [1], kind)
+        expect_err(run, "switch(tick(1, %s) => tick(2, 0), tick(3, true) => tick(4, 1))" % bad, [], kind)
+        expect_err(run, "coalesce(tick(1, null), tick(2, %s), tick(3, 1))" % bad, [1], kind)
+        expect_err(run, "selectCase(tick(1, false), tick(2, %s), tick(3, true))" % bad, [1], kind)
+        expect_err(run, "tick(1, true) and tick(2, %s)" % bad, [1], kind)
+        expect_err(run, "tick(1, false) or tick(2, %s)" % bad, [1], kind)
+        expect_err(run, "tick(1, [1, 2])?.select(tick(2, %s)).toList()" % bad, [1], kind)
     # per-element lambdas: once per element consumed
     expect(run, "[1, 2, 3].select(tick(1, $)).where(tick(2, $ > 1)).first()", [1, 2, 1, 2])
     expect(run, "[1, 2, 3].where(tick(1, $ > 0)).any(tick(2, $ > 1))", [1, 2, 1, 2])
